@@ -76,7 +76,11 @@ def check_C03(F, tier, t0):
     fns = spec_bdd.BDD_SCOPE['C03']
     run_S(R, E, fns)
     R.count('mk_choice-call-sites', static_mk_choice_sites(F.lib(), fns))
-    R.floor('functions', 10); R.floor('worlds', 12); R.floor('mk_choice-call-sites', 4)
+    # language level: every spelling of the connectives, the token -> operator table of the parser, the evaluator's dispatch
+    guarded(R, 'T tokens', engine_t.rule_tokens, F, R, {'And', 'Or', 'Xor', 'Not', 'Nor', 'Nand', 'Implies', 'ImpliesInv', 'Iff', 'If', 'Then', 'Else'})
+    guarded(R, 'T binary operators', engine_t.rule_operator_tables, F, R, ('binop',))
+    guarded(R, 'S eval_recursive (connective arms)', arm_obligations, R, E, EVF, ('BinaryOp', 'Not', 'Ite', 'Const'), 'evaluator-connective-obligations')
+    R.floor('functions', 10); R.floor('worlds', 12); R.floor('mk_choice-call-sites', 4); R.floor('T:binary-operator-rows', 8); R.floor('evaluator-connective-obligations', 4)
     return finish(R, 'proof', tier, t0,
         'Inductive proof, by exhaustive enumeration of abstract worlds (leaf/choice shape of each operand, total pre-order of the compared symbols) of each '
         'function body taken from type-checked THIR, that and/or/not/implies/ite/eq/xor/nor/nand/var return the specified pointwise truth function for ALL operand '
@@ -91,12 +95,18 @@ def check_C04(F, tier, t0):
     fns = spec_bdd.BDD_SCOPE['C04']
     run_S(R, E, fns)
     R.count('mk_choice-call-sites', static_mk_choice_sites(F.lib(), fns))
-    R.floor('functions', 3); R.floor('worlds', 3); R.floor('mk_choice-call-sites', 1)
+    # language level: the four quantifier keywords, the parser's Quantifier constructor, the evaluator's and the substitution's Quantifier arm
+    guarded(R, 'T tokens', engine_t.rule_tokens, F, R, {'Exists', 'Forall'})
+    guarded(R, 'A3 (Quantifier constructor)', a3_filtered, F, R, 'Quantifier', 'A3:quantifier-constructor')
+    guarded(R, 'S eval_recursive (Quantifier arm)', arm_obligations, R, E, EVF, ('Quantifier',), 'evaluator-quantifier-obligations')
+    guarded(R, 'S replace_var (Quantifier arm)', arm_obligations, R, E, RVF, ('Quantifier',), 'substitution-quantifier-obligations')
+    R.floor('functions', 3); R.floor('worlds', 3); R.floor('mk_choice-call-sites', 1); R.floor('T:keyword-spellings', 4); R.floor('evaluator-quantifier-obligations', 1)
     return finish(R, 'proof', tier, t0,
         'exists_impl(s,b) = b|s=1 or b|s=0 proved by structural induction in the cofactor-pair domain (every atom is the pair of its two cofactors; children of an '
         'ordered node testing s are independent of s); s is not in the support of the result and support(result) is within support(b); exists(V,b) is exactly the fold of '
         'exists_impl over V (term identity with the defining equations) and all(V,b) exactly the dual not(exists(V,not b)). Order/repetition independence and identity on '
-        'disjoint V are mathematical consequences of these equations. The language-level dispatch to exists/all is checked in C01.',
+        'disjoint V are mathematical consequences of these equations. Language level: exists/any and forall/all are the quantifier keywords, the parser builds the '
+        'Quantifier node from them, and the evaluator maps it to exists/all over the whole binder list.',
         TRUSTED, ['operands are ordered diagrams over a common lawful total order'], './check C04')
 
 def check_C20(F, tier, t0):
@@ -192,6 +202,30 @@ def check_C02(F, tier, t0):
         'Not decided: the theorem itself.',
         TRUSTED, ['Bryant: ordered + reduced => canonical (M4)'], './check C02')
 
+def arm_obligations(R, E, fname, variants, counter, which_param=1):
+    """the obligations of the syntax-directed function `fname` (eval_recursive / replace_var) in the worlds whose formula is one of `variants`"""
+    res = E.explore(fname)
+    n = 0
+    for (I, params, r, obls) in res:
+        v = spec_parser.variant_of(I, params[which_param].term)
+        if v not in variants: continue
+        for o in obls:
+            n += 1
+            R.obligation(o.ok, '%s | %s | %s' % (fname, short_label(o.label), o.world))
+            if not o.ok:
+                R.violation('%s / %s / world[%s]' % (fname, short_label(o.label), o.world), short_label(o.label).split(':')[0], '%s fails in abstract world [%s]' % (o.label, o.world), o.loc, o.detail)
+    R.count(counter, n)
+
+def a3_filtered(F, R, needle, counter):
+    """constructor provenance (A3) restricted to one syntax constructor"""
+    sub = Report('A3')
+    engine_a.rule_A3(F, sub)
+    hits = [v for v in sub.violations if needle in v.key or needle in v.msg]
+    for v in sub.violations:
+        if v in hits or v.rule == 'UNDECIDABLE': R.violation(v.key, v.rule, v.msg, v.loc, v.detail)
+    R.obligations += 1; R.discharged += 0 if hits else 1
+    R.count(counter, 1)
+
 def check_C05(F, tier, t0):
     R = Report('C05')
     E = make_engine(F)
@@ -211,6 +245,7 @@ def check_C05(F, tier, t0):
                     R.violation('%s / %s / world[%s]' % (EVF, short_label(o.label), o.world), short_label(o.label).split(':')[0], '%s fails in abstract world [%s]' % (o.label, o.world), o.loc, o.detail)
         R.count('evaluator-counting-obligations', n)
     guarded(R, 'S eval_recursive (counting arms)', lang)
+    guarded(R, 'S replace_var (counting arms)', arm_obligations, R, E, RVF, ('CountableConst', 'CountableVariable'), 'substitution-counting-obligations')
     guarded(R, 'T counting operators', engine_t.rule_operator_tables, F, R, ('countop',))
     guarded(R, 'T tokens', engine_t.rule_tokens, F, R, {'Eq', 'ImpliesInv', 'Geq', 'Lt', 'Gt'})
     R.floor('functions', 12); R.floor('evaluator-counting-obligations', 5); R.floor('T:counting-operator-rows', 5)
